@@ -35,6 +35,44 @@ CORPUS = pathlib.Path(__file__).resolve().parents[3] / 'corpus' / 'C18'
 SPECIAL_KEYS = ['p/q', 't~l', '~0', '~1', 'a~1b', '/', '~', 'ü ñ', ' sp ace ', '日本', '', '0', '-', 'a/b/c~d~0', '~~//', 'x"y', 'ключ']
 PLAIN_KEYS = ['a', 'b', 'c', 'field', 'sub', 'items', 'n', 'value', 'x.y']
 OPERATIONS = ['CREATE', 'UPDATE', 'DELETE', 'CONNECT']
+# realistic annotation/label keys: their '/' (escaped "~1" in JSON pointers) falls at every alignment of the serialised patch
+REAL_KEYS = ['helm.sh/chart', 'meta.helm.sh/release-name', 'kopf.zalando.org/last-handled-configuration', 'app.kubernetes.io/name',
+             'kubectl.kubernetes.io/last-applied-configuration', 'example.com/owner~team']
+WIRE_VALUES = ['what?', '>=1.2.3', '~x', 'a?b>c~d', 'x>y', '??', 'ok', 'chart-1.2.3', '->', 'q?']
+
+
+def wire_patches() -> list[tuple[str, dict, dict]]:
+    """(name, object, patch content): '~' and '/' in keys, '?', '>', '~' in values, after a padding key/value prefix of length
+    0..2, so that each of them falls at each of the three alignments of the serialised (then base64-encoded) patch."""
+    out: list[tuple[str, dict, dict]] = []
+    for pad in range(3):
+        px = 'x' * pad
+        out.append((f'wire-key-tilde-{pad}', {'spec': {}}, {'spec': {px + '~k': 1}}))
+        out.append((f'wire-key-slash-{pad}', {'spec': {}}, {'spec': {px + '/k': 1}}))
+        out.append((f'wire-key-replace-{pad}', {'spec': {px + 'a/b~c': 0}}, {'spec': {px + 'a/b~c': 1}}))
+        out.append((f'wire-key-remove-{pad}', {'spec': {px + '~/': 0, 'keep': 1}}, {'spec': {px + '~/': None}}))
+        for name, ch in (('question', '?'), ('greater', '>'), ('tilde', '~')):
+            out.append((f'wire-value-{name}-{pad}', {'spec': {}}, {'spec': {'v': px + ch}}))
+            out.append((f'wire-list-{name}-{pad}', {'spec': {'l': []}}, {'spec': {'l': [px + ch + ch, {'k': ch}]}}))
+    for k in REAL_KEYS:
+        out.append((f'wire-annotation-{k}', {'metadata': {'name': 'n'}}, {'metadata': {'annotations': {k: 'v'}}}))
+        out.append((f'wire-label-{k}', {'metadata': {'labels': {'app': 'a'}}}, {'metadata': {'labels': {k: 'what?'}}}))
+    out.append(('wire-last-handled', {'metadata': {'annotations': {}}},
+                {'metadata': {'annotations': {'kopf.zalando.org/last-handled-configuration': '{"spec":{"q":"a?b>c"}}\n'}}}))
+    return out
+
+
+def _wire_ops() -> list[list[dict]]:
+    out = []
+    for pad in range(3):
+        px = 'x' * pad
+        out += [[{'op': 'add', 'path': f'/spec/{px}~0k', 'value': 1}], [{'op': 'add', 'path': f'/spec/{px}a~1b', 'value': px + '?'}],
+                [{'op': 'replace', 'path': f'/metadata/annotations/{px}helm.sh~1chart', 'value': px + '>=1'}],
+                [{'op': 'remove', 'path': f'/spec/{px}~1'}, {'op': 'add', 'path': '/spec/v', 'value': [px + '~', {'q': '??>'}]}]]
+    return out
+
+
+WIRE_OPS = _wire_ops()
 MISSING = object()
 
 
@@ -81,13 +119,16 @@ class K:
         }
         # observation point: the third-party diff function as kopf's patches module calls it
         cls.diff_calls: list[tuple[Any, Any]] = []
+        cls.diff_results: list[list[dict]] = []
         real = jsonpatch.JsonPatch.from_diff
 
         class _JP:
             @staticmethod
             def from_diff(src: Any, dst: Any, *a: Any, **kw: Any) -> Any:
                 cls.diff_calls.append((copy.deepcopy(src), copy.deepcopy(dst)))
-                return real(src, dst, *a, **kw)
+                res = real(src, dst, *a, **kw)
+                cls.diff_results.append(copy.deepcopy(list(res.patch)))
+                return res
 
         if not hasattr(patches, 'jsonpatch'):
             raise RuntimeError('observation point missing: kopf._cogs.structs.patches.jsonpatch')
@@ -261,6 +302,7 @@ def run_scenario(sc: dict) -> dict:
     insights = K.Insights()
     insights.webhook_resources.add(K.resource)
     K.diff_calls.clear()
+    K.diff_results.clear()
     reason = {None: None, 'validating': K.causes.WebhookType.VALIDATING, 'mutating': K.causes.WebhookType.MUTATING}[sc.get('reason')]
     coro = K.admission.serve_admission_request(
         mkrequest(sc), webhook=sc.get('webhook'), reason=reason,
@@ -279,6 +321,8 @@ def run_scenario(sc: dict) -> dict:
     obs['patch'] = holder.get('content', {})
     obs['fns'] = list(holder.get('fns', []))
     obs['diff_calls'] = list(K.diff_calls)
+    obs['computed'] = list(K.diff_results[-1]) if K.diff_results else []   # what as_json_patch handed to build_response
+    receive(obs)
     return obs
 
 
@@ -429,6 +473,8 @@ def monitor_scenario(ctx: fw.Ctx, sc: dict, obs: dict) -> None:
     ws = [w for e in log for w in e['warnings']]
     if (resp.get('warnings') or []) != ws or ('warnings' in resp and not ws):
         ctx.fail('warnings are not returned in order', {**case, 'ran': ran}, observed=resp.get('warnings'), expected=ws, sig='warnings')
+    if ('patch' in resp) != (resp.get('patchType') == 'JSONPatch'):
+        ctx.fail('patch and patchType do not come together', case, observed={k: resp.get(k) for k in ('patch', 'patchType')}, sig='envelope')
     if obs['response'].get('kind') != 'AdmissionReview' or resp.get('uid') != sc.get('uid', 'uid-1'):
         ctx.fail('response envelope does not echo the request', case, observed=obs['response'], sig='envelope')
 
@@ -450,13 +496,55 @@ def lib_apply(ctx: fw.Ctx, src: Any, ops: list[dict]) -> Any:
         raise
 
 
-def decode_ops(resp: dict | None) -> list[dict]:
-    if resp is None:
-        return []
-    r = resp['response']
+def strict_decode(text: Any) -> tuple[bool, Any]:
+    """response.patch as kube-apiserver reads it: a []byte JSON field, i.e. STANDARD base64, strict (characters of the
+    URL-safe alphabet, missing or wrong padding are errors), then a JSON document that is a list of operations."""
+    if not isinstance(text, str):
+        return False, f'not a string: {text!r}'
+    try:
+        raw = base64.b64decode(text.encode('ascii'), validate=True)
+        ops = json.loads(raw.decode('utf-8'))
+    except (ValueError, UnicodeError) as e:       # binascii.Error and JSONDecodeError are ValueErrors
+        return False, f'{type(e).__name__}: {e}'
+    if not isinstance(ops, list) or not all(isinstance(o, dict) and 'op' in o and 'path' in o for o in ops):
+        return False, f'not a list of operations: {ops!r}'
+    return True, ops
+
+
+def receive(obs: dict) -> None:
+    """obs['wire'] in absent|ok|undecodable, obs['ops'] = the operations the API server ends up with (None if it cannot)."""
+    resp = obs.get('response')
+    r = resp['response'] if resp else {}
     if 'patch' not in r:
-        return []
-    return json.loads(base64.b64decode(r['patch']).decode('utf-8'))
+        obs['wire'], obs['ops'], obs['text'] = 'absent', [], None
+        return
+    ok, val = strict_decode(r['patch'])
+    obs['text'] = r['patch']
+    obs['wire'], obs['ops'] = ('ok', val) if ok else ('undecodable', None)
+    if not ok:
+        obs['wire_error'] = val
+
+
+def wire_stats(ctx: fw.Ctx, ops: list[dict]) -> None:
+    """Would the two base64 alphabets differ on this patch?  (evidence that the cases discriminate)"""
+    if not ops:
+        ctx.count('wire', 'no patch')
+        return
+    raw = json.dumps(ops).encode('utf-8')
+    std = base64.b64encode(raw)
+    ctx.count('wire', 'standard base64 has + or /' if (b'+' in std or b'/' in std) else 'alphabet-neutral')
+    for off, byte in enumerate(raw):
+        if byte in b'~>?':
+            ctx.count('wire_alignment', f'{chr(byte)} at offset%3={off % 3}')
+
+
+def c_wire(obs_text: Any, wire: str, received: Any, model_r: str, computed: list[dict]) -> str:
+    """The round-trip law on the real response: strict decoding of the real text (supplied as the decoder oracle, the real
+    text as the encoder oracle) gives exactly the operations the model's response carries."""
+    text_t = cq.cstr(obs_text) if isinstance(obs_text, str) else 'EmptyString'
+    dec_t = f'(Some {c_ops(received)})' if wire == 'ok' else 'None'
+    return (f'ojops_eqb (received_patch (fun _ => {text_t}) (fun s => if String.eqb s {text_t} then {dec_t} else None) {model_r}) '
+            f'(Some {c_ops(computed)}) && Bool.eqb (match r_patch {model_r} with Some _ => true | None => false end) {cq.cbool(wire != "absent")}')
 
 
 def apply_fns(body: Any, fnops: list) -> Any:
@@ -481,8 +569,16 @@ def monitor_patch(ctx: fw.Ctx, case: dict, obj: Any, pdict: Any, fnops: list, ob
         ctx.fail('no response: building the JSON patch raised', {**case, 'patch': pdict, 'object': obj},
                  observed=obs.get('raised_text'), sig='patch-raised:' + obs['raised'])
         return
-    ops = obs['ops']
     full = {**case, 'patch': pdict, 'object': obj, 'fns': fnops}
+    if obs.get('wire') == 'undecodable':
+        ctx.fail('the API server cannot decode response.patch (strict standard base64, then JSON): the mutations are lost',
+                 {**full, 'text': obs.get('text')}, observed=obs.get('text'), expected=obs.get('wire_error'), sig='patch-undecodable')
+        return
+    ops = obs['ops']
+    if 'computed' in obs and not strict_eq(ops, obs['computed']):
+        ctx.fail('response.patch does not carry the operations computed for it', {**full, 'text': obs.get('text')},
+                 observed=ops, expected=obs['computed'], sig='patch-garbled')
+        return
     ok_own, by_own = own_apply(obj, ops)
     dst = obs.get('dst', MISSING)
     if dst is not MISSING and (not ok_own or not strict_eq(by_own, dst)):
@@ -656,6 +752,8 @@ class Gen18:
     def leaf(self) -> Any:
         r = self.r
         x = r.random()
+        if x < 0.12:
+            return r.choice(WIRE_VALUES)
         if x < 0.6:
             v = self.G.scalar()
             while v is None:
@@ -793,6 +891,11 @@ class Gen18:
         ref = obj if obj is not None else old
         nfn = r.choice([1, 2, 2, 3, 3, 4])
         patch = self.patch_for(ref, 3, conflict, top=True) if r.random() < 0.85 else {}
+        if r.random() < 0.25 and isinstance(patch.get('metadata', {}), dict):      # realistic annotation / label keys
+            which = r.choice(['annotations', 'labels'])
+            md = patch.setdefault('metadata', {})
+            if isinstance(md.get(which, {}), dict):
+                md.setdefault(which, {})[r.choice(REAL_KEYS)] = r.choice(WIRE_VALUES + [None])
         writes = self.writes_for(patch)
         fnops = self.fnops(ref, patch) if r.random() < 0.6 else []
         functions: list[dict] = [{'warnings': [], 'patch': [], 'fns': [], 'raise': None} for _ in range(nfn)]
@@ -884,9 +987,9 @@ def corpus_scenarios() -> list[tuple[str, dict]]:
 
 def scenario_cases(ctx: fw.Ctx, sc: dict, D: dict[str, list[fw.Case]], tag: str = '') -> None:
     obs = run_scenario(sc)
-    obs['ops'] = decode_ops(obs['response'])
     if obs['diff_calls']:
         obs['dst'] = obs['diff_calls'][-1][1]
+    wire_stats(ctx, obs['computed'])
     data = {'kind': 'scenario', 'scenario': sc}
     obj = sc['object'] if sc['object'] is not None else sc.get('old')
     ran = [e['h'] for e in obs['log']]
@@ -903,7 +1006,7 @@ def scenario_cases(ctx: fw.Ctx, sc: dict, D: dict[str, list[fw.Case]], tag: str 
     ctx.count('patch_paths', str(min(8, sum(1 for _ in _instructions(pdict)))) if pdict else '0')
     ctx.count('fns', str(len(fnops)))
     changes = False
-    if obs['raised'] is None and obs['ops']:
+    if obs['raised'] is None and obs['computed']:
         changes = True
     if changes and ran:
         ctx.nontriv([obj, pdict, fnops, [(e['h'], repr(e['exc'])) for e in obs['log']]])
@@ -921,7 +1024,8 @@ def scenario_cases(ctx: fw.Ctx, sc: dict, D: dict[str, list[fw.Case]], tag: str 
     D['select'].append(fw.Case(f'list_eqb key_eqb {sel} {ran_keys}', {**data, 'ran': ran}, diag=sel))
     try:
         body_t, patch_t, fns_t = canon.cj(obj), canon.cj(pdict), c_fns(fnops)
-        ops_t = c_ops(obs['ops'])
+        ops_t = c_ops(obs['computed'])          # the from_diff oracle of the model: what the real from_diff returned
+        wire_t = None if obs['raised'] is not None else c_wire(obs['text'], obs['wire'], obs['ops'], 'r', obs['computed'])
     except cq.Unencodable:
         ctx.count('skipped', 'unencodable')
         return
@@ -940,7 +1044,7 @@ def scenario_cases(ctx: fw.Ctx, sc: dict, D: dict[str, list[fw.Case]], tag: str 
             dst_t = canon.cj(dst)
             D['dsl'].append(fw.Case(f'res_eqb jeqb (body_to_be {patch_t} {fns_t} {body_t}) (Ok {dst_t})',
                                     {**data, 'patch': pdict, 'fns': fnops, 'dst': dst}, diag=f'body_to_be {patch_t} {fns_t} {body_t}'))
-            D['law'].append(c_law(obs['ops'], obj))
+            D['law'].append(c_law(obs['ops'] if obs['ops'] is not None else obs['computed'], obj))
         except cq.Unencodable:
             ctx.count('skipped', 'unencodable')
     # ---- D: the whole response ----
@@ -957,6 +1061,11 @@ def scenario_cases(ctx: fw.Ctx, sc: dict, D: dict[str, list[fw.Case]], tag: str 
                 f'&& Bool.eqb {cq.cbool(resp.get("patchType") == "JSONPatch")} {pt} | _ => false end')
     diag = (f'match {serve} with Ok r => Some (r_allowed r, r_warnings r, r_status r) | _ => None end')
     D['response'].append(fw.Case(term, {**data, 'response': obs['response'], 'raised': obs['raised']}, diag=diag))
+    # ---- D: the wire law on this response: strict standard decoding of the real text = the operations of the model ----
+    if wire_t is not None:
+        D['wire'].append(fw.Case(f'match {serve} with Ok r => {wire_t} | _ => false end',
+                                 {**data, 'text': obs['text'], 'wire': obs['wire'], 'computed': obs['computed']},
+                                 diag=f'match {serve} with Ok r => r_patch r | _ => None end'))
 
 
 def dive_cases() -> list[tuple[str, dict, dict]]:
@@ -1062,7 +1171,7 @@ def response_cases(ctx: fw.Ctx, G: Gen18, n: int, D: dict[str, list[fw.Case]], e
         excs = [make_exc(s) if s else None for s in specs]
         outs = {f'h{i}': Outcome(final=not isinstance(e, K.execution.TemporaryError), exception=e) for i, e in enumerate(excs)}
         warns = [f'w{j}' for j in range(r.choice([0, 0, 1, 2]))]
-        ops = r.choice([[], [], [{'op': 'add', 'path': '/spec/x', 'value': 1}]])
+        ops = r.choice([[], [], [{'op': 'add', 'path': '/spec/x', 'value': 1}], WIRE_OPS[ti % len(WIRE_OPS)], WIRE_OPS[ti % len(WIRE_OPS)]])
         uid = r.choice(['u1', ''])
         req: dict[str, Any] = {'request': {'uid': uid}} if r.random() < 0.9 else {}
         resp = K.admission.build_response(request=req, outcomes=outs, warnings=warns, jsonpatch=ops)['response']
@@ -1076,14 +1185,21 @@ def response_cases(ctx: fw.Ctx, G: Gen18, n: int, D: dict[str, list[fw.Case]], e
                      expected=expected_status(errs), sig='status')
         if (resp.get('warnings') or []) != warns:
             ctx.fail('warnings are not returned in order', data, observed=resp.get('warnings'), expected=warns, sig='warnings')
-        if ops and json.loads(base64.b64decode(resp.get('patch', 'W10='))) != ops:
-            ctx.fail('the response does not carry the JSON patch', data, observed=resp.get('patch'), sig='patch-dropped')
+        o: dict[str, Any] = {'response': {'response': resp}}
+        receive(o)
+        wire_stats(ctx, ops)
+        if o['wire'] == 'undecodable':
+            ctx.fail('the API server cannot decode response.patch (strict standard base64, then JSON): the mutations are lost',
+                     {**data, 'text': o['text']}, observed=o['text'], expected=o.get('wire_error'), sig='patch-undecodable')
+        elif not strict_eq(o['ops'], ops):
+            ctx.fail('the response does not carry the JSON patch', data, observed=o['ops'], sig='patch-dropped')
         outs_t = cq.clist(cq.cpair(cq.cstr(f'h{i}'), f'(Some {c_herror(herror_of(e))})' if e is not None else 'None') for i, e in enumerate(excs))
         ws = 'None' if 'warnings' not in resp else f'(Some {cq.clist(cq.cstr(w) for w in resp["warnings"])})'
         br = f'(build_response {cq.cstr(uid if req else "")} {outs_t} {cq.clist(cq.cstr(w) for w in warns)} {c_ops(ops)})'
         term = (f'let r := {br} in String.eqb (r_uid r) {cq.cstr(resp.get("uid", ""))} && Bool.eqb (r_allowed r) {cq.cbool(resp["allowed"])} '
                 f'&& ostrs_eqb (r_warnings r) {ws} && status_eqb (r_status r) {c_status(resp.get("status"))} '
-                f'&& Bool.eqb (match r_patch r with Some _ => true | None => false end) {cq.cbool("patch" in resp)}')
+                f'&& Bool.eqb (match r_patch r with Some _ => true | None => false end) {cq.cbool("patch" in resp)} '
+                f'&& {c_wire(o["text"], o["wire"], o["ops"], "r", ops)}')
         D['build'].append(fw.Case(term, {**data, 'response': resp}, diag=f'let r := {br} in (r_allowed r, r_warnings r, r_status r)'))
         ctx.count('outcome_table', 'exhaustive' if ti < n_exh else 'random')
         ctx.count('errors_in_table', str(len(errs)))
@@ -1106,7 +1222,7 @@ def selection_table(ctx: fw.Ctx, D: dict[str, list[fw.Case]], stride: int) -> No
               'functions': [{}], 'handlers': [{'id': 'h', 'fn': 0, 'kind': kind, 'operations': ops, 'subresource': hsub, 'when': when}]}
         obs = run_scenario(sc)
         ran = [e['h'] for e in obs['log']]
-        monitor_scenario(ctx, sc, {**obs, 'ops': decode_ops(obs['response'])})  # (empty patch: from_diff is not called)
+        monitor_scenario(ctx, sc, obs)  # (empty patch: from_diff is not called)
         hs_term = cq.clist([c_handler(sc['handlers'][0], when)])
         term = f'Nat.eqb (List.length (select_webhooks {c_cause(sc)} {hs_term})) {cq.cnat(len(ran))}'
         D['seltable'].append(fw.Case(term, {'kind': 'scenario', 'scenario': sc, 'ran': ran}))
@@ -1149,11 +1265,16 @@ def run(ctx: fw.Ctx) -> int:
         return ctx.finish(RULE)
     K.load()
     G = Gen18(ctx)
-    D: dict[str, list[fw.Case]] = {k: [] for k in ('select', 'response', 'dsl', 'law', 'apply', 'merge', 'asjp', 'build', 'seltable', 'pointer')}
+    D: dict[str, list[fw.Case]] = {k: [] for k in ('select', 'response', 'wire', 'dsl', 'law', 'apply', 'merge', 'asjp', 'build', 'seltable', 'pointer')}
 
     for name, sc in corpus_scenarios():
         ctx.count('corpus', name)
         scenario_cases(ctx, sc, D)
+    for name, body, patch in wire_patches():
+        ctx.count('corpus', 'wire-*')
+        scenario_cases(ctx, {'op': 'CREATE', 'sub': None, 'webhook': None, 'reason': None, 'old': None, 'dryrun': False, 'uid': 'uid-1',
+                             'object': body, 'functions': [{'warnings': [], 'patch': [['item', k, v] for k, v in patch.items()], 'fns': [], 'raise': None}],
+                             'handlers': [{'id': 'fn0', 'fn': 0, 'kind': 'mutate', 'operations': None, 'subresource': None, 'when': None}]}, D)
     for name, body, patch in dive_cases():
         ctx.count('corpus', 'dive-*')
         scenario_cases(ctx, {'op': 'CREATE', 'sub': None, 'webhook': None, 'reason': None, 'old': None, 'dryrun': False, 'uid': 'uid-1',
@@ -1172,7 +1293,9 @@ def run(ctx: fw.Ctx) -> int:
         'jsonpatch.JsonPatch.from_diff is an oracle with the law apply_ops (from_diff a b) a ~ b (validated on every case by the '
         'library, by the harness evaluator canon.apply6902 and by the Gallina apply_ops); Python str()/repr()/isinstance of '
         'exception objects are supplied to the model; handler criteria other than id/reason/operation/subresource are one '
-        'oracle boolean (property C15); user handlers and patch.fns are oracle arguments'])
+        'oracle boolean (property C15); user handlers and patch.fns are oracle arguments; the encoding of the patch field and the '
+        'API server\'s decoding (strict standard base64, JSON) are oracles with the law decode_std (encode ops) = Some ops, '
+        'validated on every real response (D:wire, D:build)'])
 
 
 def replay(ctx: fw.Ctx, body: dict) -> bool:
@@ -1185,7 +1308,6 @@ def replay(ctx: fw.Ctx, body: dict) -> bool:
     if kind == 'scenario':
         sc = case['scenario']
         obs = run_scenario(sc)
-        obs['ops'] = decode_ops(obs['response'])
         if obs['diff_calls']:
             obs['dst'] = obs['diff_calls'][-1][1]
         monitor_scenario(ctx, sc, obs)
@@ -1204,7 +1326,10 @@ def replay(ctx: fw.Ctx, body: dict) -> bool:
         outs = {f'h{i}': Outcome(final=True, exception=e) for i, e in enumerate(excs)}
         resp = K.admission.build_response(request={}, outcomes=outs, warnings=case['warnings'], jsonpatch=case['ops'])['response']
         errs = [herror_of(e) for e in excs if e is not None]
-        if resp.get('allowed') is not (not errs) or resp.get('status') != expected_status(errs) or (resp.get('warnings') or []) != case['warnings']:
+        o: dict[str, Any] = {'response': {'response': resp}}
+        receive(o)
+        if resp.get('allowed') is not (not errs) or resp.get('status') != expected_status(errs) or (resp.get('warnings') or []) != case['warnings'] \
+                or o['wire'] == 'undecodable' or not strict_eq(o['ops'], case['ops']):
             return True
     else:
         print(f'replay: no failing input in this file (kind={body.get("kind")}); re-run ./check C18 {ctx.tier} with VERIF_SEED={ctx.seed}')
